@@ -15,5 +15,7 @@ def main (args : List String) : IO UInt32 := do
   | ["twin"] => Proto.loop stdin stdout DriverTwin.step DriverTwin.init; return 0
   | ["sketch"] => Proto.loop stdin stdout DriverSketch.step (); return 0
   | ["seq"] => Proto.loop stdin stdout DriverSeq.step DriverSeq.init; return 0
+  | ["select"] => Proto.loop stdin stdout DriverSelect.step DriverSelect.init; return 0
+  | ["tax"] => Proto.loop stdin stdout DriverTax.step DriverTax.init; return 0
   | ["own"] => Proto.loop stdin stdout DriverOwn.stepLine Own.Heap.empty; return 0
   | _ => IO.eprintln "usage: Main <module>"; return 2
